@@ -4,6 +4,8 @@
 -/
 import OlVerif.Import.Model
 import OlVerif.Import.Seq
+import OlVerif.Import.Bridge
+import OlVerif.Lower.WfOut
 
 namespace OlVerif.C14
 
@@ -100,5 +102,43 @@ example : olRun (fun m n => m == ["pk"] && n == "sub") ({}, [])
     [.imp ["pk", "sub"] (some "s"), .fromName ["pk"] "sub" none, .fromName ["pk"] "v" none, .imp ["pk", "sub", "deep"] none] =
     ({ loaded := [["pk"], ["pk", "sub"], ["pk", "sub", "deep"]] },
      [("pk", .module ["pk"]), ("v", .attr ["pk"] "v"), ("sub", .module ["pk", "sub"]), ("s", .module ["pk", "sub"])]) := by decide
+
+/-! ### bridge: the lowering model emits what M-IMPORT reasons about -/
+
+/-- `lowerImport` emits exactly one binding per alias, in source order, each binding `importPlan`'s name to
+    `importPlan`'s call through the namespace of the scope the statement stands in -/
+theorem lower_import_plan (n : Nsp) : ∀ (as : List Alias) (es : List Expr), lowerImport n as = .ok es →
+    es.length = as.length ∧ ∀ p ∈ as.zip es, n.getAssign (importPlan p.1).1 (importPlan p.1).2 = .ok p.2
+  | [], es, h => by
+      simp only [lowerImport] at h; cases h; simp
+  | a :: as, es, h => by
+      simp only [lowerImport] at h
+      split at h <;> rename_i hc
+      all_goals
+        obtain ⟨e, he, h⟩ := bind_ok h
+        obtain ⟨rest, hr, h⟩ := bind_ok h
+        cases pure_ok h
+        obtain ⟨hl, hz⟩ := lower_import_plan n as rest hr
+        refine ⟨by simp [hl], ?_⟩
+        intro p hp
+        simp only [List.zip_cons_cons, List.mem_cons] at hp
+        rcases hp with rfl | hp
+        · simp only [importPlan, hc, if_true, if_false]
+          exact he
+        · exact hz p hp
+
+/-- under the string facts, the text-level decision of the code is the path-level decision of M-IMPORT: the name
+    bound is the one `olImport` binds, and the call emitted is the one `olImport` stands for -/
+theorem plan_is_model (a : Alias) (h : a.dotOK = true) (st : ImpSt) :
+    (importPlan a).1 = (olImport st a.modName a.asname).2.1 ∧ (importPlan a).2 = modelCall a.modName a.asname := by
+  simp only [Alias.dotOK, Bool.and_eq_true, beq_iff_eq] at h
+  obtain ⟨h1, h2⟩ := h
+  by_cases hc : (a.asname.isNone && a.name.contains '.') = true
+  · have hc' : (a.asname.isNone && decide (a.modName.length > 1)) = true := by rw [← h1]; exact hc
+    simp only [importPlan, hc, olImport, hc', modelCall, if_true, builtinImportTop, h2]
+    all_goals (try simp [Alias.modName])
+  · have hc' : ¬ (a.asname.isNone && decide (a.modName.length > 1)) = true := by rw [← h1]; exact hc
+    simp only [importPlan, hc, olImport, hc', modelCall, if_false, importModule, h2]
+    all_goals (try simp)
 
 end OlVerif.C14
